@@ -157,7 +157,12 @@ pub fn decide(kind: u16, a0: i64, count: usize) -> Decision {
         if r.scope != SCOPE_ANY && (r.scope == SCOPE_CHILD) != child {
             continue;
         }
-        if r.nth != 0 && r.nth != n {
+        // prob >= 2000: "from the nth call on" (a resource that is exhausted stays exhausted)
+        if r.prob >= 2000 {
+            if n < r.nth {
+                continue;
+            }
+        } else if r.nth != 0 && r.nth != n {
             continue;
         }
         if r.fd >= 0 && r.fd as i64 != a0 {
@@ -168,7 +173,14 @@ pub fn decide(kind: u16, a0: i64, count: usize) -> Decision {
         }
         let mut fire = true;
         match r.act {
-            ACT_FAIL => d.fail = r.val as i32,
+            ACT_FAIL => {
+                d.fail = r.val as i32;
+                // a caller that answers a persistent failure by trying again and again is ended after 24 attempts
+                if r.prob >= 2000 && fired(i) >= 24 {
+                    BUDGET_HIT.fetch_add(1, SeqCst);
+                    d.fail = ABORT_ERRNO;
+                }
+            }
             ACT_SHORT => {
                 if count > 1 {
                     let m = if r.val > 0 { r.val as usize } else { 1 + (rnd() as usize % (count - 1)) };
